@@ -87,7 +87,8 @@ pub fn domain(f: Family, k: Kind, refs: &Refs, level: u8) -> Vec<Vec<u8>> {
 	let sp = pct_spellings(f, level);
 	let mut out: Vec<Vec<u8>> = match k {
 		Kind::Scheme => v(&["s", "S", "t", "s1", "s+", "http", "HTTP"]),
-		Kind::Port => v(&["", "8", "80", "080", "0", "00", "65535"]),
+		// ports on both sides of u16 and with fewer / more digits (numeric order != text order)
+		Kind::Port => v(&["", "8", "80", "080", "0", "00", "65535", "9", "10", "65536", "70000", "100000", "443"]),
 		Kind::Segment => {
 			let mut x = sp.clone();
 			x.extend(v(&[".", "..", "%2E", "%2e%2e", "a:b", "a%3Ab", "@"]));
@@ -103,6 +104,8 @@ pub fn domain(f: Family, k: Kind, refs: &Refs, level: u8) -> Vec<Vec<u8>> {
 			x.extend(v(&["h", "H", "%68", "[::1]", "[::01]", "[::0:1]", "1.2.3.4", "01.2.3.4", "a.b", "a%2Eb", "[v1.a]"]));
 			// a reg-name that only DECODES to an IP literal / to text with authority delimiters
 			x.extend(v(&["%5B%3A%3A1%5D", "%5b::1%5d", "%5Bv1.a%5D", "u%40h", "h%3A80"]));
+			// IP literals that differ by letter case only (hosts are compared as they decode, not folded)
+			x.extend(v(&["[::a]", "[::A]", "[V1.a]", "[v1.A]", "EXAMPLE", "example"]));
 			x
 		}
 		Kind::Query | Kind::Fragment => {
@@ -138,8 +141,8 @@ pub fn domain(f: Family, k: Kind, refs: &Refs, level: u8) -> Vec<Vec<u8>> {
 			let us = ov(&[None, Some(""), Some("u"), Some("%75"), Some("%FF"), Some("u:p"), Some("u%3Ap")]);
 			// "%5B%3A%3A1%5D": reg-name decoding to "[::1]"; "u%40h", "h%3A80": one host whose decoding
 			// looks like user-info / port syntax (equal to nothing that really has those components)
-			let hs = v(&["", "h", "%68", "H", "[::1]", "[::01]", "%C1%81", "A", "%5B%3A%3A1%5D", "u%40h", "h%3A80"]);
-			let ps = ov(&[None, Some(""), Some("80"), Some("080")]);
+			let hs = v(&["", "h", "%68", "H", "[::1]", "[::01]", "%C1%81", "A", "%5B%3A%3A1%5D", "u%40h", "h%3A80", "[::a]", "[::A]"]);
+			let ps = ov(&[None, Some(""), Some("80"), Some("080"), Some("9"), Some("70000")]);
 			let mut x = Vec::new();
 			for u in &us {
 				for h in &hs {
@@ -175,6 +178,10 @@ pub fn domain(f: Family, k: Kind, refs: &Refs, level: u8) -> Vec<Vec<u8>> {
 					"s://h/p#%4a".to_string(), "s://h/p#%4A".to_string(), "s://h/p#J".to_string(), "s://h/p#%4B".to_string(),
 					"s://h/p?%4a".to_string(), "s://h/p?%4A".to_string(), "s://h/%4a".to_string(), "s://h/%4A".to_string(),
 					"s://%4a/p".to_string(), "s://%4A/p".to_string(), "s://%4a@h/p".to_string(), "s://%4A@h/p".to_string(),
+					// a query / fragment holding its own delimiter, and near misses
+					"s://h/p?a?b".to_string(), "s://h/p?a?c".to_string(), "s://h/p?a".to_string(), "s://h/p?a%3Fb".to_string(), "s://h/p?x?y#f".to_string(), "s://h/p?x?y#g".to_string(),
+					"s://h/p?x?y".to_string(), "s://h/p#a?b".to_string(), "s://h/p#a?c".to_string(), "s://h/p#a".to_string(), "s:a:b".to_string(), "s:a:c".to_string(), "s:a".to_string(),
+					"s://[::a]/p".to_string(), "s://[::A]/p".to_string(), "s://h:9/".to_string(), "s://h:10/".to_string(), "s://h:70000/".to_string(),
 					"s://[::1]/a".to_string(), "s://%5B%3A%3A1%5D/a".to_string(), "s://[::01]/a".to_string(), "s://u%40h/a".to_string(), "s://u@h/a".to_string(),
 					"s://h%3A80/a".to_string(), "s://h:80/a".to_string(), "s://[::1]".to_string(), "s://%5B%3A%3A1%5D".to_string(),
 			] {
